@@ -230,8 +230,12 @@ def run_unit(unit, tier, want_props=None, logdir=None):
     only = os.environ.get("VERIF_ONLY")
     if only:
         hs = [h for h in hs if h.name in only.split(",")]
-    if os.environ.get("VERIF_TIMEOUT"):
-        for h in hs:
+    for h in hs:
+        if not hasattr(h, "_base_timeout"):
+            h._base_timeout = h.timeout
+        # the thorough tier explores larger bounds: give each harness four times the budget
+        h.timeout = h._base_timeout * (4 if tier == "thorough" else 1)
+        if os.environ.get("VERIF_TIMEOUT"):
             h.timeout = int(os.environ["VERIF_TIMEOUT"])
     if not hs:
         return []
